@@ -38,6 +38,16 @@ Theorem c17_single_request : forall (zdec : zoracle) s,
   snd (decompressL zdec s) = [EvInflate (is_wrapped s) s (zip_max_size + 1)].
 Proof. intros zdec s. split; [exact (decompressL_fst zdec s) | exact (decompressL_trace zdec s)]. Qed.
 
+(* histories: the verdict on a stream is a function of that stream only — whatever was
+   decompressed before (bombs, corrupt streams, wrapped or raw) and whatever follows *)
+Theorem c17_decompress_stateless : forall (zdec : zoracle) pre s post,
+  nth_error (decompress_seq zdec (pre ++ s :: post)) (length pre) = Some (decompress zdec s).
+Proof. exact decompress_seq_stateless. Qed.
+
+Theorem c17_history_bound : forall (zdec : zoracle) l v,
+  In (Ok v) (decompress_seq zdec l) -> blen v <= zip_max_size.
+Proof. exact decompress_seq_bound. Qed.
+
 (* errors: the exceeded-size error, DecodeError for a zlib.error, or another error of the call *)
 Theorem c17_error_class : forall (zdec : zoracle) s err,
   decompress zdec s = Err err ->
@@ -272,6 +282,8 @@ Example c17_encrypt_empty_instance :
 Proof. cbv zeta. split; [vm_compute; reflexivity|]. split; [vm_compute; reflexivity|]. vm_compute. discriminate. Qed.
 
 Print Assumptions c17_max_size_value.
+Print Assumptions c17_decompress_stateless.
+Print Assumptions c17_history_bound.
 Print Assumptions c17_encrypt_leaves_plaintext.
 Print Assumptions c17_encrypt_again_same.
 Print Assumptions c17_encrypt_trace.
